@@ -1,6 +1,6 @@
 """C09 - upset/downset traversals yield exactly the filters/ideals, once, in rank order."""
 
-from vlib import gen, latcheck, lib, tablecheck
+from vlib import bigcases, gen, latcheck, lib, tablecheck
 from vlib.latcheck import Built, pairs, multisets
 from vlib.oracle import positions
 
@@ -79,11 +79,17 @@ def check_one(case, ctx, deep):
 
 def plan(tier, seed):
     return tablecheck.plan(tier, seed, wide=True, quick_cells=12, thorough_cells=16, thorough_shapes=(), thorough_multisets=(),
-                           hyp_quick=(12, 80), hyp_thorough=(16, 800))
+                           hyp_quick=(12, 80), hyp_thorough=(16, 800), fixed=('chain:400',))
+
+
+def fixed_cases(name):
+    # a chain of 400 concepts, traversed cold from both ends first (the interleaved pass comes before any complete one)
+    kind, size = name.split(':')
+    yield dict(bigcases.chain(int(size)), f='big-' + kind)
 
 
 def run(task, ctx):
-    tablecheck.run(task, ctx, check_one)
+    tablecheck.run(task, ctx, check_one, fixed_cases=fixed_cases)
 
 
 def replay(case, ctx):
